@@ -88,6 +88,28 @@ Theorem C16_deleted_stays_deleted : forall cp ops0 o k ops,
 Proof. exact reach_deleted_stays_deleted. Qed.
 Print Assumptions C16_deleted_stays_deleted.
 
+(* The same for EVERY way an entry leaves the cache: whenever an operation
+   that is not a Put of k hands (k, x) to the delete callback — an eviction by
+   a Put of another key, successful or failing half-way, or a deletion — the
+   key is not resident afterwards and Get k misses until k is put again.  So
+   the callback never reports an entry that is still served, and
+   C16_get_after_put's exception ("unless evicted or deleted") is exact. *)
+Theorem C16_reported_entry_is_gone : forall cp ops0 o k x ops,
+  0 <= cp < two64 -> Forall wf_op ops0 -> wf_op o -> Forall wf_op ops ->
+  let c := fst (run (empty cp) ops0) in
+  is_put_of k o = false -> In (k, x) (obs_cbs (snd (step c o))) ->
+  forallb (fun o => negb (is_put_of k o)) ops = true ->
+  snd (step (fst (run (fst (step c o)) ops)) (Get k)) = OVal None [].
+Proof. exact reach_reported_then_missing. Qed.
+Print Assumptions C16_reported_entry_is_gone.
+
+Example C16_evicted_nonvacuous :
+  let c := fst (run (empty 10) [Put 1 {| vid := 11; vsz := 6 |}; Put 2 {| vid := 12; vsz := 3 |}; Get 1]) in
+  snd (step c (Put 3 {| vid := 13; vsz := 3 |})) = OPut true [(2, 12)] /\
+  snd (run (fst (step c (Put 3 {| vid := 13; vsz := 3 |}))) [Delete 3; Get 2]) =
+    [ODone [(3, 13)]; OVal None []].
+Proof. vm_compute. split; reflexivity. Qed.
+
 (* A key that was never stored is never found, whatever else happened. *)
 Theorem C16_never_put_never_found : forall cp ops k,
   0 <= cp < two64 -> Forall wf_op ops ->
